@@ -1214,6 +1214,26 @@ func c05budget(c *Ctx) {
 			hist = append(hist, fmt.Sprintf("sibling:=%s", l))
 		}
 	}
+	// an entry that was checked while its level was enabled and is written after
+	// the level has been raised (a CheckedEntry held for a moment): the cores
+	// that accepted it at the check receive it - that is what having accepted
+	// means
+	if g.Chance(2) {
+		odest, ologs := observer.New(sibLevel)
+		hooks := 0
+		olg := zap.New(zapcore.NewTee(zapcore.RegisterHooks(odest, func(zapcore.Entry) error { hooks++; return nil }), zapcore.NewNopCore()))
+		sibLevel.SetLevel(zapcore.InfoLevel)
+		ce := olg.Check(zapcore.InfoLevel, "checked, then the level was raised")
+		sibLevel.SetLevel(zapcore.ErrorLevel)
+		if ce != nil {
+			ce.Write()
+		}
+		if ologs.Len() != 1 || hooks != 1 {
+			c.Fail("C05: an entry accepted by a core at the check did not reach it at the write", "Check at info with the level at info, SetLevel(error), Write: the destination recorded %d entries, its hook fired %d times", ologs.Len(), hooks)
+			return
+		}
+		c.R.Probe("level raised between Check and Write")
+	}
 	var got []string
 	for _, e := range dlogs.All() {
 		got = append(got, fmt.Sprintf("%s %s", e.Level, e.Message))
